@@ -47,7 +47,7 @@ Genesis ==
     wait |-> <<>>, frozen |-> <<>>, pools |-> <<>>, orders |-> <<>>, nextOrder |-> 1, checksUsed |-> <<>>,
     haltVotes |-> <<>>, commVotes |-> <<>>, updVotes |-> <<>>,
     price |-> [f \in PriceFields |-> 1], priceCoin |-> "0",
-    vals |-> <<[p |-> "v1", stake |-> 1000, accum |-> 0, absent |-> 0, bits |-> "", toDrop |-> FALSE]>>,
+    vals |-> <<[p |-> "v1", stake |-> 1000, accum |-> 0, absent |-> 0, bits |-> <<>>, toDrop |-> FALSE]>>,
     rewardPool |-> 0, slashed |-> 0, emission |-> 1000, reward |-> 1, safeReward |-> 1,
     priceRec |-> [t |-> 0, r0 |-> 0, r1 |-> 0, last |-> 0, off |-> FALSE], maxGas |-> 100000,
     versions |-> <<>>, deleted |-> <<>>, blocked |-> <<>>]
